@@ -216,7 +216,7 @@ class C02Oracle(Oracle):
 class Program:
     def __init__(self, rng, tier):
         self.rng = rng
-        opts = {}
+        opts = {"allow_same_names": True}
         if rng.random() < 0.3:
             opts["patterns"] = ["low", "mixed", "full"]
         self.world = gen_world(rng, opts)
